@@ -4,7 +4,7 @@
    inside a fragmented message refused). [lossy] stands for String::from_utf8_lossy. *)
 From AV Require Import Lib.Base Gen.Consts Ws.Mask Ws.MaskProofs Ws.MaskFast Ws.Frame Ws.FrameProofs
   Ws.Codec Ws.ParseProofs Ws.Stream Ws.StreamProofs Ws.MoreProofs Ws.Handshake Ws.HandshakeProofs
-  Ws.FrameSpec Ws.SpecProofs Ws.HdrProofs Ws.RoundProofs Ws.DeliverProofs Ws.RoundTrip Ws.OversizeProofs Ws.RoundTripSeq.
+  Ws.FrameSpec Ws.SpecProofs Ws.HdrProofs Ws.RoundProofs Ws.DeliverProofs Ws.RoundTrip Ws.OversizeProofs Ws.RoundTripSeq Ws.ReserveProofs.
 
 (* ---------------- masking ---------------- *)
 
@@ -96,6 +96,15 @@ Theorem C14_close_payload_bounded : forall src server max_size fin pl rest,
 Proof.
   intros src server max_size fin pl rest H. rewrite parse_pp in H. injection H as H.
   eapply close_within_max; eauto.
+Qed.
+
+(* when it asks for more, the parser itself requests at most max_size + a header (14 bytes) of
+   capacity, whatever length the peer announces *)
+Theorem C14_reserve_bounded : forall src server max_size c,
+  parse src server max_size = Val (PNone (Some c)) -> c <= max_size + 14.
+Proof.
+  intros src server max_size c H. rewrite parse_pp in H. injection H as H.
+  eapply reserve_bounded; eauto.
 Qed.
 
 (* a frame announcing more than max_size is refused as soon as its header is there, whatever
